@@ -56,8 +56,17 @@ def materials(kind, rng, n):
                             qv=0.0 if rng.random() < 0.6 else rng.choice([100.0, 1000.0, -50.0])))
         else:
             mu = rng.choice([1.0, 1.0, 100.0, 500.0, 2000.0])
-            out.append(dict(name=name, Mu_x=mu, Mu_y=mu if rng.random() < 0.6 else rng.choice([1.0, 50.0, 200.0]),
-                            J_re=0.0 if rng.random() < 0.5 else rng.choice([1.0, -2.5, 0.5])))
+            m = dict(name=name, Mu_x=mu, Mu_y=mu if rng.random() < 0.6 else rng.choice([1.0, 50.0, 200.0]),
+                     J_re=0.0 if rng.random() < 0.5 else rng.choice([1.0, -2.5, 0.5]))
+            r = rng.random()
+            if r < 0.2:
+                m["H_c"] = rng.choice([1e5, 5e5, 9e5])
+            elif r < 0.45:
+                m["LamType"] = rng.choice([0, 1, 2])
+                m["LamFill"] = rng.choice([0.5, 0.9, 0.98])
+            if rng.random() < 0.3:
+                m["Sigma"] = rng.choice([1.0, 10.0, 58.0])
+            out.append(m)
     return out
 
 
